@@ -76,6 +76,8 @@ def sort_classes(classes: list):
     """Sort classes in order of dependencies. The input is a list: in case of
     multiple classes with the same name, the last one is used.
     """
+    # a hybrid class stands for the struct it dresses
+    classes[:] = [getattr(cls, "_XoStruct", cls) for cls in classes]
     class_by_name = {
         cls.__name__: cls for cls in classes
     }  # cls.__name__ may repeat
@@ -88,6 +90,7 @@ def sort_classes(classes: list):
         if hasattr(cls, "_depends_on"):
             cls_deps.extend(cls._depends_on)
         for local_dep in cls_deps:
+            local_dep = getattr(local_dep, "_XoStruct", local_dep)
             if local_dep.__name__ not in class_by_name:
                 # Since we keep `classes` and `class_by_name` synchronised, even
                 # if there is a dependency loop, the below on-line modification
